@@ -285,7 +285,24 @@ func goTypesAPIRule(w *World, r *Result, only func(rel string) bool) int {
 				}
 				n++
 				cons := normLocals(info, call)
+				qualified := false
 				if inner, isSel := ast.Unparen(sel.X).(*ast.SelectorExpr); isSel && inner.Sel.Name == "Sel" {
+					qualified = true
+				}
+				// a local bound once to `<x>.Sel`
+				if lid := identOf(sel.X); lid != nil {
+					if ds := defsIn(info, fi.Decl, objOf(info, lid)); len(ds) == 1 {
+						if inner, isSel := ast.Unparen(ds[0]).(*ast.SelectorExpr); isSel && inner.Sel.Name == "Sel" {
+							qualified = true
+						}
+					}
+				}
+				// the scope of an imported package (`pkgName.Imported().Scope()`) only holds package-level objects, and
+				// nothing of the importing file can shadow them there
+				if fsel, isSel := ast.Unparen(call.Fun).(*ast.SelectorExpr); isSel && strings.Contains(es(fsel.X), ".Imported()") {
+					qualified = true
+				}
+				if qualified {
 					r.ok("IDENT-SCOPE", fi.Name, cons, w.Pos(call.Pos()), "the name is the selector of a qualified identifier: it can only live in the scope of the package named before the dot", true)
 				} else {
 					r.bad("IDENT-SCOPE", fi.Name, cons, w.Pos(call.Pos()), "an identifier of the analysed source is looked up by name in a single scope: a declaration that shadows the name where the identifier stands (a local constant with the name of a package-level one) is ignored and the outer object is used silently; the type checker's own resolution (Info.Uses/ObjectOf) or a lookup at the identifier's position (types.Eval, Scope.LookupParent) is what answers `what does this identifier denote here`")
